@@ -21,6 +21,7 @@ var LibModels = []string{
 	"math.Abs/Min/Max: exact over reals; math.Sqrt: sqrtU(x)>=0 && sqrtU(x)^2==x for x>=0; math.Floor: to_int",
 	"unicode.IsSpace: exact for code points < 256, uninterpreted above",
 	"utf8.RuneStart(b): exact (b is not in 0x80..0xBF)",
+	"strings.ReplaceAll(s, c, w) for a one-byte literal c: byte-for-byte map when w is one byte; otherwise every c in the result ends a copy of w (when c occurs in w only as its last byte), no c at all when c does not occur in w, other bytes are not invented",
 	"strings.TrimSpace: result is a sub-slice of the argument (same backing array, offsets within bounds); trimmed prefix/suffix bytes satisfy isTrimByte (uninterpreted superset of ASCII space); result does not start/end with an ASCII space byte; whole characters are trimmed (for valid UTF-8 input the result starts and ends on character boundaries)",
 	"strings.ToUpper/ToLower: length-preserving for ASCII input; ASCII letters mapped exactly, other ASCII bytes unchanged (non-ASCII: uninterpreted)",
 	"sort.Ints: same length, ascending, same set of values, distinctness preserved (consequences of 'sorted permutation'); sort.Strings/Float64s/Slice: same length, contents unconstrained (abstracted)",
@@ -154,6 +155,60 @@ func (x *Exec) libCall(key string, fn *types.Func, call *ast.CallExpr, recvExpr 
 				x.W.SeqAt(stv, a).S, x.W.SeqAt(stv, Arith("+", a, n)).S, app), SBool))
 		}
 		return []Term{r}, true
+	case "strings.ReplaceAll":
+		if x.termMode {
+			break
+		}
+		src := arg(0)
+		oldS, newS := arg(1), arg(2)
+		on, ok1 := litLen(x.W, oldS)
+		nn, ok2 := litLen(x.W, newS)
+		if !ok1 || !ok2 || on != 1 {
+			break
+		}
+		oldB := x.W.SeqAt(oldS, IntLit(0))
+		res := x.fresh("repl", types.Typ[types.String])
+		x.W.nfresh++
+		q := fmt.Sprintf("q!%d", x.W.nfresh)
+		qi := T(q, SInt)
+		inR := And(Cmp("<=", IntLit(0), qi), Cmp("<", qi, x.W.SeqLen(res)))
+		if nn == 1 {
+			// byte-for-byte substitution: same length, exact map
+			nb := x.W.SeqAt(newS, IntLit(0))
+			x.W.AddFact(env.pc, And(Eq(x.W.SeqLen(res), x.W.SeqLen(src)),
+				T("(forall (("+q+" Int)) (! "+Implies(inR, Eq(x.W.SeqAt(res, qi), Ite(Eq(x.W.SeqAt(src, qi), oldB), nb, x.W.SeqAt(src, qi)))).S+" :pattern ("+x.W.SeqAt(res, qi).S+")))", SBool)))
+			return []Term{res}, true
+		}
+		// replacement of one byte c by a literal w: every c in the result is the image of an occurrence inside a copy of w
+		// (stated when c occurs in w only as its last byte, or not at all)
+		last := x.W.SeqAt(newS, IntLit(int64(nn-1)))
+		var prefixEq []Term
+		for j := 0; j < nn-1; j++ {
+			prefixEq = append(prefixEq, Eq(x.W.SeqAt(res, Arith("-", qi, IntLit(int64(nn-1-j)))), x.W.SeqAt(newS, IntLit(int64(j)))))
+		}
+		var noneInPrefix []Term
+		for j := 0; j < nn-1; j++ {
+			noneInPrefix = append(noneInPrefix, Not(Eq(x.W.SeqAt(newS, IntLit(int64(j))), oldB)))
+		}
+		cond := And(append(noneInPrefix, Eq(last, oldB))...)
+		body := Implies(And(inR, Eq(x.W.SeqAt(res, qi), oldB)), And(append([]Term{Cmp(">=", qi, IntLit(int64(nn-1)))}, prefixEq...)...))
+		x.W.AddFact(env.pc, Implies(cond, T("(forall (("+q+" Int)) (! "+body.S+" :pattern ("+x.W.SeqAt(res, qi).S+")))", SBool)))
+		var noneAtAll []Term
+		for j := 0; j < nn; j++ {
+			noneAtAll = append(noneAtAll, Not(Eq(x.W.SeqAt(newS, IntLit(int64(j))), oldB)))
+		}
+		x.W.AddFact(env.pc, Implies(And(noneAtAll...), T("(forall (("+q+" Int)) (! "+Implies(inR, Not(Eq(x.W.SeqAt(res, qi), oldB))).S+" :pattern ("+x.W.SeqAt(res, qi).S+")))", SBool)))
+		// bytes other than c that do not occur in w are neither invented nor lost: stated only as "not invented"
+		x.W.nfresh++
+		q2 := fmt.Sprintf("q!%d", x.W.nfresh)
+		qj := T(q2, SInt)
+		var notInNew []Term
+		for j := 0; j < nn; j++ {
+			notInNew = append(notInNew, Not(Eq(x.W.SeqAt(res, qi), x.W.SeqAt(newS, IntLit(int64(j))))))
+		}
+		inv := Implies(And(append([]Term{inR}, notInNew...)...), T("(exists (("+q2+" Int)) "+And(Cmp("<=", IntLit(0), qj), Cmp("<", qj, x.W.SeqLen(src)), Eq(x.W.SeqAt(src, qj), x.W.SeqAt(res, qi))).S+")", SBool))
+		x.W.AddFact(env.pc, T("(forall (("+q+" Int)) (! "+inv.S+" :pattern ("+x.W.SeqAt(res, qi).S+")))", SBool))
+		return []Term{res}, true
 	case "strings.ToUpper", "strings.ToLower":
 		if x.termMode {
 			break
